@@ -1,5 +1,378 @@
 //! Runtime-facing checks: C17 (no leak through errors/Debug/logs) and C18 (determinism, reentrancy).
+use crate::case::*;
+use crate::gen::*;
+use crate::imp;
+use crate::props_validate::*;
+use crate::refspec as rs;
+use crate::util::*;
 use crate::Ctx;
+use base64::Engine;
+use std::sync::Mutex;
 
-pub fn c17(_ctx: &mut Ctx) {}
-pub fn c18(_ctx: &mut Ctx) {}
+// ---------------------------------------------------------------------------------------------
+// capturing logger
+
+pub struct CapLogger;
+pub static RECORDS: Mutex<Vec<(log::Level, String)>> = Mutex::new(Vec::new());
+static LOGGER: CapLogger = CapLogger;
+
+impl log::Log for CapLogger {
+    fn enabled(&self, _m: &log::Metadata) -> bool {
+        true
+    }
+    fn log(&self, r: &log::Record) {
+        RECORDS.lock().unwrap().push((r.level(), format!("{}", r.args())));
+    }
+    fn flush(&self) {}
+}
+
+pub fn install_logger() {
+    let _ = log::set_logger(&LOGGER);
+    log::set_max_level(log::LevelFilter::Trace);
+}
+
+fn take_records() -> Vec<(log::Level, String)> {
+    std::mem::take(&mut *RECORDS.lock().unwrap())
+}
+
+/// All encodings under which a byte string could leak.
+fn encodings(raw: &[u8]) -> Vec<(String, Vec<u8>)> {
+    let mut v: Vec<(String, Vec<u8>)> = Vec::new();
+    v.push(("hex".into(), hex::encode(raw).into_bytes()));
+    v.push(("HEX".into(), hex::encode_upper(raw).into_bytes()));
+    for (n, e) in [
+        ("base64", &base64::engine::general_purpose::STANDARD),
+        ("base64-nopad", &base64::engine::general_purpose::STANDARD_NO_PAD),
+        ("base64url", &base64::engine::general_purpose::URL_SAFE),
+        ("base64url-nopad", &base64::engine::general_purpose::URL_SAFE_NO_PAD),
+    ] {
+        v.push((n.into(), e.encode(raw).into_bytes()));
+    }
+    v.push(("raw".into(), raw.to_vec()));
+    // Debug rendering of a byte array, e.g. "[104, 105]"
+    v.push(("debug-array".into(), format!("{:?}", raw).into_bytes()));
+    v
+}
+
+fn contains(hay: &[u8], needle: &[u8]) -> bool {
+    needle.len() >= 6 && hay.windows(needle.len()).any(|w| w == needle)
+}
+
+struct Obs {
+    class: String,
+    err_display: String,
+    err_debug: String,
+    returned: String,
+    debug_logs: Vec<(log::Level, String)>,
+    trace_logs: Vec<String>,
+    calls: usize,
+}
+
+fn observe(c: &Case) -> Option<Obs> {
+    let req = imp::build_request(c)?;
+    take_records();
+    let mut prov = imp::provider_for(vec![imp::entry_of(c)]);
+    let v = imp::validate_with(c, req, &mut prov);
+    let recs = take_records();
+    Some(Obs {
+        class: v.class.clone(),
+        err_display: v.err_display.clone(),
+        err_debug: v.err_debug.clone(),
+        returned: v.returned.as_ref().map(|r| format!("{:?}", r)).unwrap_or_default(),
+        debug_logs: recs.iter().filter(|(l, _)| *l <= log::Level::Debug).cloned().collect(),
+        trace_logs: recs.iter().filter(|(l, _)| *l == log::Level::Trace).map(|(_, m)| m.clone()).collect(),
+        calls: v.calls.len(),
+    })
+}
+
+pub fn c17(ctx: &mut Ctx) {
+    install_logger();
+    let mut rng = ctx.rng.fork();
+    let secrets = ["wJalrXUtnFEMI/K7MDENG+bPxRfiCYEXAMPLEKEY", "Zq9x8mT2vB4nH6kL1pS3dF5gJ7hK0aQwErTyUiOp"];
+    // (a) renderings of the key types and of every public value reachable from them
+    {
+        use scratchstack_aws_signature::{GetSigningKeyRequest, GetSigningKeyResponse, KSecretKey};
+        use std::str::FromStr;
+        for secret in secrets {
+            let date = chrono::NaiveDate::from_ymd_opt(2015, 8, 30).unwrap();
+            let k = KSecretKey::<44>::from_str(secret).unwrap();
+            let kd = k.to_kdate(date);
+            let kr = kd.to_kregion("us-east-1");
+            let ks = kr.to_kservice("service");
+            let kg = ks.to_ksigning();
+            let resp = GetSigningKeyResponse::builder().principal(imp::principal_for("u1")).signing_key(kg).build().unwrap();
+            let reqv = GetSigningKeyRequest::builder().access_key("AKIDEXAMPLE").request_date(date).region("us-east-1").service("service").build().unwrap();
+            let rendered = vec![
+                format!("{:?}", k), format!("{}", k), format!("{:?}", kd), format!("{}", kd), format!("{:?}", kr), format!("{}", kr),
+                format!("{:?}", ks), format!("{}", ks), format!("{:?}", kg), format!("{}", kg), format!("{:?}", resp), format!("{:?}", reqv),
+                format!("{:#?}", resp), format!("{:#?}", kg),
+            ];
+            let chain = rs::key_chain(secret.as_bytes(), "20150830", "us-east-1", "service");
+            let mut material: Vec<Vec<u8>> = vec![secret.as_bytes().to_vec(), format!("AWS4{}", secret).into_bytes()];
+            material.extend(chain.iter().cloned());
+            for text in &rendered {
+                ctx.rep.count("evaluations");
+                ctx.rep.count("evaluations.RENDER");
+                for m in &material {
+                    for (enc, needle) in encodings(m) {
+                        if contains(text.as_bytes(), &needle) {
+                            ctx.rep.fail(Failure { kind: "ORACLE", op: "RENDER".into(), class: "c17-render".into(), input: format!("rendering of a key-bearing value for secret #{}", secrets.iter().position(|s| *s == secret).unwrap()), imp: text.chars().take(200).collect(), model: String::new(), spec: enc, clause: "C17: a Debug/Display rendering contains key material".into() });
+                        }
+                    }
+                }
+            }
+            // constant across keys
+            ctx.rep.distinct(&rendered.join("|"));
+        }
+        // the two secrets must render identically everywhere
+    }
+    // (b) requests accepted or refused at each rule, validated under two keys that differ in every byte
+    let mut lines = Vec::new();
+    let mut pending: Vec<(Case, Obs, Obs, String, Vec<u8>, Vec<u8>, Vec<u8>)> = Vec::new();
+    let n = ctx.n(400, 8000);
+    for i in 0..n {
+        let mut l = random_logical(&mut rng);
+        l.secret = secrets[0].to_string();
+        // spread refusals over the rules: time skew, scope, provider errors, signature, structural
+        let kind = i % 8;
+        let now = now_for(&l, if kind == 1 { 3_000_000_000_000 } else { 0 });
+        let s = sign_and_spell(&l, &mut rng, &Spelling::plain(), now);
+        let mut c = s.case.clone();
+        match kind {
+            2 => c.region = "other-region".into(),
+            3 => { let bad: String = s.signature.chars().rev().collect(); set_signature(&mut c, &s.signature, &bad); }
+            4 => c.uri = format!("{}{}x=%zz", c.uri, if c.uri.contains('?') { "&" } else { "?" }),
+            5 => c.headers.retain(|(n, _)| !n.eq_ignore_ascii_case("x-amz-date") && !n.eq_ignore_ascii_case("date")),
+            6 => { let mut sig = s.signature.clone().into_bytes(); sig[63] = if sig[63] == b'0' { b'1' } else { b'0' }; set_signature(&mut c, &s.signature, std::str::from_utf8(&sig).unwrap()); }
+            _ => {}
+        }
+        // key A: the right key (kind 0: accepted); key B: the other secret's key. Same identity.
+        let key_a = s.key.clone();
+        let key_b = rs::signing_key(secrets[1].as_bytes(), &s.scope_date, &l.region, &l.service);
+        if key_a.iter().zip(key_b.iter()).any(|(a, b)| a == b) && i == 0 {
+            ctx.rep.notes.push("keys share a byte position; still distinct keys".into());
+        }
+        let mut ca = c.clone();
+        ca.answer = Answer::Key { key: key_a.clone(), identity: s.identity.clone() };
+        let mut cb = c.clone();
+        cb.answer = Answer::Key { key: key_b.clone(), identity: s.identity.clone() };
+        if kind == 7 {
+            let e = Answer::Err(ProvErr::Sig("InvalidClientTokenId"));
+            ca.answer = e.clone();
+            cb.answer = e;
+        }
+        let (oa, ob) = match (observe(&ca), observe(&cb)) {
+            (Some(a), Some(b)) => (a, b),
+            _ => continue,
+        };
+        // model: number of debug-level records and the outcome, for run A
+        let req = imp::build_request(&ca).unwrap();
+        let path = req.uri().path().to_string();
+        let query = req.uri().query().map(|q| q.to_string());
+        lines.push(format!("OBS {}", ca.fields(&path, query.as_deref(), &other_for(&ca))));
+        pending.push((ca, oa, ob, s.signature.clone(), key_a, key_b, s.sts.clone()));
+    }
+    let answers = ctx.drv.ask_all(&lines);
+    for (((c, oa, ob, good_sig, key_a, key_b, sts), model), line) in pending.into_iter().zip(answers.into_iter()).zip(lines.into_iter()) {
+        ctx.rep.count("evaluations");
+        ctx.rep.count("evaluations.OBS");
+        ctx.rep.count("traces_validated_against_impl");
+        ctx.rep.count(&format!("impl_outcome.{}", oa.class.replace(' ', ".")));
+        ctx.rep.distinct(&format!("{}|{}", line, oa.class));
+        // correspondence: outcome class and number of debug-or-above records
+        let il = format!("{} DEBUG {}", oa.class.split(' ').take(2).collect::<Vec<_>>().join(" "), oa.debug_logs.len());
+        let ml = { let f: Vec<&str> = model.split(' ').collect(); if f[0] == "OK" { format!("OK DEBUG {}", f.last().unwrap()) } else { format!("{} {} DEBUG {}", f[0], f[1], f.last().unwrap()) } };
+        if il != ml {
+            ctx.rep.fail(Failure { kind: "CORR", op: "OBS".into(), class: "c17-obs".into(), input: line.clone(), imp: il, model: ml, spec: String::new(), clause: format!("implementation and model disagree on outcome / number of debug-level log records: {:?}", oa.debug_logs) });
+        }
+        // non-interference between the two keys when both are refusals
+        let both_refused = oa.class != "OK" && ob.class != "OK";
+        if both_refused {
+            ctx.rep.count("both_refused");
+            if oa.class != ob.class || oa.err_display != ob.err_display || oa.err_debug != ob.err_debug || oa.debug_logs != ob.debug_logs || oa.calls != ob.calls {
+                ctx.rep.fail(Failure { kind: "ORACLE", op: "OBS".into(), class: "c17-noninterference".into(), input: line.clone(), imp: format!("{} / {} | {} / {}", oa.class, ob.class, oa.err_display, ob.err_display), model: String::new(), spec: String::new(), clause: format!("C17: what is observable about a refusal differs between two signing keys — {}", c.describe()) });
+            }
+        }
+        // byte-level scan of everything observable at debug level or above, in both runs
+        for (o, key) in [(&oa, &key_a), (&ob, &key_b)] {
+            let mut texts: Vec<(&str, String)> = vec![("error Display", o.err_display.clone()), ("error Debug", o.err_debug.clone()), ("returned value Debug", o.returned.clone())];
+            for (l, m) in &o.debug_logs {
+                texts.push(("log record", format!("{} {}", l, m)));
+            }
+            // what must not appear: the key, and (for refusals) the expected signature, which the crate itself
+            // reveals only in its trace-level record
+            let mut needles: Vec<(String, Vec<u8>)> = encodings(key).into_iter().map(|(e, n)| (format!("signing key as {}", e), n)).collect();
+            if o.class != "OK" {
+                for t in &o.trace_logs {
+                    if let Some(p) = t.find("expected '") {
+                        let exp: String = t[p + 10..].chars().take_while(|c| *c != '\'').collect();
+                        if exp.len() == 64 && exp != extract_presented(&c) {
+                            needles.push(("expected signature".into(), exp.clone().into_bytes()));
+                            needles.push(("expected signature upper-case".into(), exp.to_uppercase().into_bytes()));
+                        }
+                    }
+                }
+                // the signature the reference signer computes under this run's key for the base request
+                let exp_ref = rs::sign(key, &sts);
+                if extract_presented(&c) != exp_ref {
+                    needles.push(("reference-computed expected signature".into(), exp_ref.clone().into_bytes()));
+                }
+                if extract_presented(&c) != good_sig {
+                    needles.push(("valid signature of the base request".into(), good_sig.clone().into_bytes()));
+                }
+            }
+            for (what, text) in &texts {
+                for (nm, needle) in &needles {
+                    if contains(text.as_bytes(), needle) {
+                        ctx.rep.fail(Failure { kind: "ORACLE", op: "OBS".into(), class: "c17-leak".into(), input: line.clone(), imp: format!("{}: {}", what, text.chars().take(300).collect::<String>()), model: String::new(), spec: nm.clone(), clause: format!("C17: {} appears in {}", nm, what) });
+                    }
+                }
+            }
+        }
+        if ctx.rep.samples.len() < 5 {
+            ctx.rep.sample(format!("{} under two keys -> {} / {}; debug records {:?}", c.describe().chars().take(160).collect::<String>(), oa.class, ob.class, oa.debug_logs));
+        }
+    }
+}
+
+fn extract_presented(c: &Case) -> String {
+    for (n, v) in &c.headers {
+        if n.eq_ignore_ascii_case("authorization") {
+            let s = String::from_utf8_lossy(v);
+            if let Some(p) = s.find("Signature=") {
+                return s[p + 10..].chars().take_while(|ch| ch.is_ascii_hexdigit()).collect();
+            }
+        }
+    }
+    if let Some(p) = c.uri.find("X-Amz-Signature=") {
+        return c.uri[p + 16..].chars().take_while(|ch| ch.is_ascii_hexdigit()).collect();
+    }
+    String::new()
+}
+
+// ---------------------------------------------------------------------------------------------
+// C18 determinism and reentrancy
+
+fn outcome_line(c: &Case) -> String {
+    match imp::build_request(c) {
+        None => "NOT-ADMITTED".to_string(),
+        Some(req) => {
+            let submitted = req.uri().to_string();
+            let mut prov = imp::provider_for(vec![imp::entry_of(c)]);
+            let v = imp::validate_with(c, req, &mut prov);
+            let mut l = imp_line(c, &v, &submitted);
+            if let Some(r) = &v.returned {
+                l.push_str(&format!(" headers={} method={}", hx(format!("{:?}", r.headers).as_bytes()).len(), r.method));
+            }
+            l
+        }
+    }
+}
+
+fn corpus(ctx: &mut Ctx, n: usize) -> Vec<Case> {
+    let mut rng = ctx.rng.fork();
+    let mut out = Vec::new();
+    for i in 0..n {
+        let l = random_logical(&mut rng);
+        let now = now_for(&l, if i % 7 == 3 { 4_000_000_000_000 } else { 0 });
+        let sp = Spelling::random(&mut rng);
+        let mut s = sign_and_spell(&l, &mut rng, &sp, now);
+        match i % 9 {
+            1 => s.case.uri.push_str("&q=%2"),
+            2 => s.case.region = "r2".into(),
+            4 => { s.case.prefixes = vec!["x-amz-".into(), "my-".into(), "a".into()]; s.case.ifreq = vec!["Accept".into()]; }
+            5 => s.case.headers.retain(|(n, _)| !n.eq_ignore_ascii_case("host")),
+            _ => {}
+        }
+        out.push(s.case);
+    }
+    out
+}
+
+pub fn c18(ctx: &mut Ctx) {
+    let n = ctx.n(150, 1500);
+    let cases = corpus(ctx, n);
+    // model agreement and the single reference answer
+    let jobs: Vec<Job> = cases.iter().map(|c| job(c.clone(), Expect::Any, "c18", "")).collect();
+    run_jobs(ctx, "VALIDATE", jobs);
+    let reference: Vec<String> = cases.iter().map(outcome_line).collect();
+    // (a) repetition in this process
+    for _ in 0..3 {
+        for (c, r) in cases.iter().zip(reference.iter()) {
+            ctx.rep.count("evaluations");
+            ctx.rep.count("evaluations.repeat");
+            let again = outcome_line(c);
+            if &again != r {
+                ctx.rep.fail(Failure { kind: "ORACLE", op: "REPEAT".into(), class: "c18-repeat".into(), input: c.describe(), imp: again, model: String::new(), spec: r.clone(), clause: "C18: repeating a validation in the same process changed its outcome".into() });
+            }
+        }
+    }
+    // (b) fresh processes (different hash seeds) and (c) threads racing from the first use of the library
+    let file = format!("/verif/harness/target/c18-{}.cases", std::process::id());
+    std::fs::write(&file, cases.iter().map(|c| c.to_line()).collect::<Vec<_>>().join("\n")).unwrap();
+    let exe = std::env::current_exe().unwrap();
+    let nproc = ctx.n(8, 24);
+    let mut children = Vec::new();
+    for k in 0..nproc {
+        let threads = if k < nproc / 2 { 1 } else { [2usize, 4, 8, 16][k % 4] };
+        children.push((threads, std::process::Command::new(&exe).arg("c18child").arg(&file).arg(threads.to_string()).stdout(std::process::Stdio::piped()).spawn().unwrap()));
+    }
+    for (threads, ch) in children {
+        let out = ch.wait_with_output().unwrap();
+        let text = String::from_utf8_lossy(&out.stdout);
+        let mut seen = 0;
+        for line in text.lines() {
+            // "<index>\t<outcome line>"
+            if let Some((i, o)) = line.split_once('\t') {
+                let i: usize = i.parse().unwrap();
+                seen += 1;
+                ctx.rep.count("evaluations");
+                ctx.rep.count(if threads == 1 { "evaluations.fresh_process" } else { "evaluations.threaded" });
+                if o != reference[i] {
+                    ctx.rep.fail(Failure { kind: "ORACLE", op: "PROCESS".into(), class: if threads == 1 { "c18-process".into() } else { "c18-threads".into() }, input: cases[i].describe(), imp: o.to_string(), model: String::new(), spec: reference[i].clone(), clause: format!("C18: outcome differs in a fresh process ({} threads) from the reference run", threads) });
+                }
+            }
+        }
+        if !out.status.success() || seen < cases.len() {
+            ctx.rep.fail(Failure { kind: "ORACLE", op: "PROCESS".into(), class: "c18-child-crash".into(), input: format!("child with {} threads", threads), imp: format!("status {:?}, {} of {} outcomes", out.status, seen, cases.len() * threads.max(1)), model: String::new(), spec: String::new(), clause: "C18: a child process did not complete".into() });
+        }
+    }
+    let _ = std::fs::remove_file(&file);
+    ctx.rep.add("processes", nproc as u64);
+    ctx.rep.sample(format!("{} requests x (3 repeats in-process, {} fresh processes, of which {} run 2-16 threads started on a barrier before the library's first use)", cases.len(), nproc, nproc - nproc / 2));
+}
+
+/// Child mode: validate every case of the file from `threads` threads started on a barrier (so the lazily
+/// initialised regexes are raced on first use); print "<index>\t<outcome>" for every validation.
+pub fn c18_child(file: &str, threads: usize) {
+    let text = std::fs::read_to_string(file).unwrap();
+    let cases: Vec<Case> = text.lines().map(|l| Case::from_line(l)).collect();
+    if threads <= 1 {
+        for (i, c) in cases.iter().enumerate() {
+            println!("{}\t{}", i, outcome_line(c));
+        }
+        return;
+    }
+    let barrier = std::sync::Arc::new(std::sync::Barrier::new(threads));
+    let cases = std::sync::Arc::new(cases);
+    let mut hs = Vec::new();
+    for t in 0..threads {
+        let b = barrier.clone();
+        let cs = cases.clone();
+        hs.push(std::thread::spawn(move || {
+            let mut out = Vec::new();
+            b.wait();
+            // each thread walks the corpus from a different offset, so different requests overlap in time
+            for k in 0..cs.len() {
+                let i = (k + t * 7) % cs.len();
+                out.push(format!("{}\t{}", i, outcome_line(&cs[i])));
+            }
+            out
+        }));
+    }
+    for h in hs {
+        for l in h.join().unwrap() {
+            println!("{}", l);
+        }
+    }
+}
